@@ -59,7 +59,7 @@ class Oracle:
             self.copies, self.route, self.delivered, self.pending = {}, {}, {}, None
             return None
         if name == "c.own":
-            p, b = reply.split("pick=")[1].split("/")
+            p, b = reply.split("pick=")[1].split()[0].split("/")
             self.route[a[1]] = ([int(x) for x in p.split(",")], [int(x) for x in b.split(",")] if b != "-" else [])
             return None
         if name == "wb.put":
@@ -190,7 +190,7 @@ class Gen:
         routes = {}
         for k in keys:
             rep = yield "c.own dm %s" % k
-            p, b = rep.split("pick=")[1].split("/")
+            p, b = rep.split("pick=")[1].split()[0].split("/")
             routes[k] = (int(p.split(",")[-1]), [int(x) for x in b.split(",")] if b != "-" else [])
         nowms = T0 // 1_000_000
         packs = []
